@@ -171,7 +171,7 @@ def run_shard(wd, ix, cases, profile, timeout):
 
 
 def check(tier, seed):
-    res = core.Result("C20", tier, seed)
+    res = core.Result("C20", tier, seed, level="exploration")
     rng = random.Random(f"C20-{seed}")
     q = tier == "quick"
     cases = gen_cases(rng, 420 if q else 12000)
